@@ -264,7 +264,9 @@ def mk_path_node_with_op(e):
 
 def mk_path_node(e, with_op=False):
     """a node of the previous stage: token simple or spine operator, header node of its spine, last operator or none"""
-    hdr = e.new(Node, {'id': e.int('hdr.id', 1), 'token': None, 'children': [], 'header_node': None}, None)
+    htok = e.new(HeaderToken, {'encoding': e.str_sym('hdr.encoding', ['**kern', '**text']), 'category': TokenCategory.HEADER, 'hidden': False,
+                               'spine_id': e.int('hdr.spine_id', 0)}, None)
+    hdr = e.new(Node, {'id': e.int('hdr.id', 1), 'token': htok, 'children': [], 'header_node': None}, None)
     op = None
     if with_op:
         optok = e.new(SpineOperationToken, {'encoding': '*^', 'category': TokenCategory.SPINE_OPERATION, 'hidden': False, 'cancelled_at_stage': None}, None)
